@@ -127,7 +127,7 @@ def run(chk):
                     inp = [0x8000 | (c & 0xff) for c in inp]
             else:
                 inp = [r.choice(cells if back else letters) for _ in range(r.range(1, 14))]
-                mode = 4
+                mode = 4 | r.choice([0, 0, 1, 1, 128, 256, 16, 64, 1 | 128])   # dotsIO plus other mode bits (noContractions, ...)
             outlen = r.choice([4 * len(inp) + 10, 4 * len(inp) + 10, r.range(0, len(inp) + 2), 3 * len(inp)])
             fn = "B" if back else "T"
             lines.append(trans.case_line(fn, mode, inp, outlen, presence=12))
